@@ -46,6 +46,9 @@ Scn(m) ==
       depth  == CASE Below(3, m, 7) = 0 -> need + 1 [] Below(3, m, 7) = 1 -> need + 4 [] OTHER -> 1000
   IN [id |-> m, nc |-> nc, prompt |-> Str(prompt), readSize |-> rs, strip |-> strip, wrap |-> wrap, exact |-> exact,
       depth |-> depth,
+      \* the operation carries an interim prompt pattern that nothing the device prints matches: the output is then awaited by
+      \* ReadUntilAnyPrompt instead of ReadUntilPrompt, the contract is the same
+      interim |-> Below(4, m, 8) = 0,
       cmds |-> [j \in 1..nc |-> Str(cmds[j])], outs |-> [j \in 1..nc |-> Str(outs[j])],
       pre |-> \A j \in 1..nc : PreOut(outs[j], depth, prompt) /\ PreCmd(cmds[j]),
       expect |-> [j \in 1..nc |-> Str(Expect(outs[j], prompt, strip))],
